@@ -16,6 +16,7 @@ CONSTANTS
              \* (blocks carry their bodies)
   DataSets,  \* set of data valuations: each a sequence of global layers
   Cfgs,      \* set of configurations
+  Partials,  \* the loader's other templates: sequence of <<name, nodes>>
   MaxTop,    \* maximal number of top-level nodes
   Focus      \* name of the focus (goes into the record)
 
@@ -33,11 +34,13 @@ Next == \E n \in PoolAt(Len(prog) + 1) : Add(n)
 
 Spec == Init /\ [][Next]_prog
 
-Expect(d, c) == Render(<<<<"main", AnnotTemplate(prog)>>>>, "main", d, c)
+AnnPartials == [i \in DOMAIN Partials |-> <<Partials[i][1], AnnotTemplate(Partials[i][2])>>]
+Expect(d, c) == Render(<<<<"main", AnnotTemplate(prog)>>>> \o AnnPartials, "main", d, c)
 
 Record(d, c) ==
   LET r == Expect(d, c) IN
-  [focus |-> Focus, templates |-> <<<<"main", Src(prog)>>>>, main |-> "main",
+  [focus |-> Focus, main |-> "main",
+   templates |-> <<<<"main", Src(prog)>>>> \o [i \in DOMAIN Partials |-> <<Partials[i][1], Src(Partials[i][2])>>],
    data |-> d, cfg |-> c, expect |-> r]
 
 Emit(text) ==
@@ -65,7 +68,9 @@ Export ==
 \* Properties of the reference semantics itself, checked on every program:
 \* a render either succeeds or fails with a class of the error model
 ErrorModel == {"", "LiquidTypeError", "LiquidSyntaxError", "UndefinedError", "UnknownFilterError",
-               "LiquidValueError", "UNSPEC"}
+               "LiquidValueError", "TemplateNotFoundError", "ContextDepthError", "DisabledTagError",
+               "TemplateInheritanceError", "RequiredBlockError", "OutputStreamLimitError",
+               "LoopIterationLimitError", "LocalNamespaceLimitError", "UNSPEC"}
 Total == \A d \in DataSets, c \in Cfgs : Expect(d, c).err \in ErrorModel
 
 \* C18 on the reference: whitespace-control markers, the default trim mode and
@@ -74,7 +79,7 @@ Total == \A d \in DataSets, c \in Cfgs : Expect(d, c).err \in ErrorModel
 RECURSIVE NoWs(_)
 NoWs(s) == IF s = "" THEN "" ELSE IF Ch(s, 1) \in WsSet THEN NoWs(SubSeq(s, 2, Len(s)))
            ELSE Ch(s, 1) \o NoWs(SubSeq(s, 2, Len(s)))
-Plain(d, c) == Render(<<<<"main", AnnotTemplate(ClearWc(prog))>>>>, "main", d,
+Plain(d, c) == Render(<<<<"main", AnnotTemplate(ClearWc(prog))>>>> \o AnnPartials, "main", d,
                       [c EXCEPT !.trim = "+", !.suppress = FALSE])
 WsOnly == \A d \in DataSets, c \in Cfgs :
             LET r == Expect(d, c)
